@@ -4,8 +4,9 @@
 From Coq Require Import List Arith Bool ZArith Permutation Ring.
 From PV Require Import Base.Index Base.Perm Np.NpZ Np.Array Model.Sparse Model.Repr Model.Harness Model.C03Ops Model.C03Gen Model.C06Ops
                        Model.C07Ops Model.C01Conv Model.C04Model Model.C06Stm
-                       Model.C02Spec Model.C02Sparse Model.C02SpKernels Model.C02SpMore
-                       Proofs.C03Lemmas Proofs.C03Proofs Proofs.C03GenProofs Proofs.C06Proofs Proofs.C06Other Proofs.C06Stm Proofs.C06Squash Proofs.C06Kernels.
+                       Model.C02Spec Model.C02Sparse Model.C02SpKernels Model.C02SpMore Model.C06Cont
+                       Proofs.C03Lemmas Proofs.C03Proofs Proofs.C03GenProofs Proofs.C06Proofs Proofs.C06Other Proofs.C06Stm Proofs.C06Squash Proofs.C06Kernels
+                       Proofs.C04Region Proofs.C06Set Proofs.C06Cont.
 Import ListNotations.
 
 Section C06.
@@ -95,6 +96,31 @@ Theorem C06_ops_setitem : forall (S S' : sparse V) (o : op V) S1 out S1' out', w
   step_sparse v0 isz S o = Some (S1, out) -> step_sparse v0 isz S' o = Some (S1', out') ->
   same_result v0 isz S1 S1' /\ out = out'.
 Proof. exact (indep_step v0 isz isz_spec). Qed.
+
+(* wave 3b — the TOTAL form (corollary of C04_refine_sparse_total / C04_sparse_region_admissible, which carry no hypothesis on the key any
+   more): on every operation sptensor offers (all reads; writes by subscript array; writes by region — index lists may REPEAT an index,
+   the right-hand side may be a scalar, zero or the values of a sparse / dense tensor, extent and order may GROW), whenever the
+   specification accepts the request on the denoted array, the sparse model performs it for EVERY stored order of the receiver, both
+   new states are well-formed, equal up to stored order and denote the specified array, and the outputs agree *)
+Theorem C06_ops_setitem_total : forall (S S' : sparse V) (o : op V) a' out, wf S -> wf S' -> sshape S' = sshape S ->
+  Permutation (entries S) (entries S') -> sparse_op_ok o ->
+  spec_step v0 (abs_sp v0 S) o = Some (a', out) ->
+  exists S1 S1', step_sparse v0 isz S o = Some (S1, out) /\ step_sparse v0 isz S' o = Some (S1', out) /\
+                 same_result v0 isz S1 S1' /\ eq_amap (abs_sp v0 S1) a' /\ eq_amap (abs_sp v0 S1') a'.
+Proof. exact (indep_step_total v0 isz isz_spec). Qed.
+
+Theorem C06_ops_region_set : forall (S S' : sparse V) es (r : rhs V) s' asg, wf S -> wf S' -> sshape S' = sshape S ->
+  Permutation (entries S) (entries S') ->
+  resolve_set cartF (sshape S) (KRegion es) r = Some (s', asg) ->
+  exists S1 S1', step_sparse v0 isz S (OSet (KRegion es) r) = Some (S1, ([], [])) /\
+                 step_sparse v0 isz S' (OSet (KRegion es) r) = Some (S1', ([], [])) /\
+                 same_result v0 isz S1 S1' /\ sshape S1 = s'.
+Proof. exact (indep_region_set v0 isz isz_spec). Qed.
+
+(* same_result, spelled out *)
+Theorem C06_same_result_def : forall R R' : sparse V,
+  same_result v0 isz R R' <-> (wf R /\ wf R' /\ canon R = canon R' /\ Permutation (entries R) (entries R')).
+Proof. exact (fun R R' => iff_refl _). Qed.
 
 (* sptenmat.__setitem__ (transliteration impl_stm_setitem of pyttb/sptenmat.py on the 2-way coordinate list behind the sptenmat;
    t = the (subscript, value) targets in pyttb's loop order, pairwise distinct, values may be zero): the result is well-formed
@@ -245,8 +271,94 @@ Qed.
 Theorem C06_ops_normsq : forall S S' : sparse V, reord S S' ->
   impl_normsq_sp v0 vadd vmul S = impl_normsq_sp v0 vadd vmul S'.
 Proof. exact (indep_normsq V v0 v1 vadd vmul vsub vopp Vring isz). Qed.
+
+(* ---- wave 3b: the CONTAINERS pyttb returns for ttv / collapse / contract / ttm (Model/C06Cont.v: the projected subscripts and
+        scaled values handed to from_aggregator / accumarray / np.sum, the empty-operand exits and the 50% sparse/dense switch).
+        kwf r s': r is a well-formed sptensor of shape s' (one value per subscript, in bounds, pairwise distinct, NO explicit zero —
+        also when contributions cancel exactly), or a well-formed dense array of shape s', or a number and s' = [];
+        kden r: the array r denotes;  ksame r r': the same KIND of container and the same result (sptensors: same canonical form,
+        entries equal up to order; dense / number: equal). ---- *)
+Notation kwf := (kwf isz).
+Notation kden := (kden v0).
+Notation ksame := (ksame V v0 isz).
+
+Theorem C06_ksame_def : forall r r' : @kres V,
+  ksame r r' <-> match r, r' with
+                 | KSp R, KSp R' => same_result v0 isz R R'
+                 | KDen D, KDen D' => D = D'
+                 | KNum x, KNum y => x = y
+                 | _, _ => False
+                 end.
+Proof. exact (fun r r' => iff_refl _). Qed.
+
+Theorem C06_cont_ttv : forall (S : sparse V) dims vs, wf S ->
+  NoDup dims -> (forall x, In x dims -> x < length (sshape S)) -> length vs = length dims ->
+  let r := cont_ttv v0 v1 vadd vmul isz S dims vs in
+  kwf r (ttv_shape (sshape S) dims) /\
+  forall i', inb (ttv_shape (sshape S) dims) i' = true -> kden r i' = spec_ttv v0 vadd vmul (den S) (sshape S) dims vs i'.
+Proof. exact (cont_ttv_spec V v0 v1 vadd vmul vsub vopp Vring isz isz_spec). Qed.
+
+Theorem C06_cont_ttv_indep : forall (S S' : sparse V) dims vs, reord S S' ->
+  ksame (cont_ttv v0 v1 vadd vmul isz S dims vs) (cont_ttv v0 v1 vadd vmul isz S' dims vs).
+Proof. exact (cont_ttv_indep V v0 v1 vadd vmul vsub vopp Vring isz isz_spec). Qed.
+
+Theorem C06_cont_collapse : forall (S : sparse V) dims, wf S ->
+  NoDup dims -> (forall x, In x dims -> x < length (sshape S)) ->
+  let r := cont_collapse v0 vadd isz S dims in
+  kwf r (ttv_shape (sshape S) dims) /\
+  forall i', inb (ttv_shape (sshape S) dims) i' = true -> kden r i' = spec_collapse v0 vadd (den S) (sshape S) dims i'.
+Proof. exact (cont_collapse_spec V v0 v1 vadd vmul vsub vopp Vring isz isz_spec). Qed.
+
+Theorem C06_cont_collapse_indep : forall (S S' : sparse V) dims, reord S S' ->
+  ksame (cont_collapse v0 vadd isz S dims) (cont_collapse v0 vadd isz S' dims).
+Proof. exact (cont_collapse_indep V v0 v1 vadd vmul vsub vopp Vring isz isz_spec). Qed.
+
+Theorem C06_cont_contract : forall (S : sparse V) i1 i2, wf S ->
+  i1 <> i2 -> i1 < length (sshape S) -> i2 < length (sshape S) -> nth i1 (sshape S) 0 = nth i2 (sshape S) 0 ->
+  let r := cont_contract v0 vadd isz S i1 i2 in
+  kwf r (ttv_shape (sshape S) [i1; i2]) /\
+  forall i', inb (ttv_shape (sshape S) [i1; i2]) i' = true -> kden r i' = spec_contract v0 vadd (den S) (sshape S) i1 i2 i'.
+Proof. exact (cont_contract_spec V v0 v1 vadd vmul vsub vopp Vring isz isz_spec). Qed.
+
+Theorem C06_cont_contract_indep : forall (S S' : sparse V) i1 i2, reord S S' ->
+  ksame (cont_contract v0 vadd isz S i1 i2) (cont_contract v0 vadd isz S' i1 i2).
+Proof. exact (cont_contract_indep V v0 v1 vadd vmul vsub vopp Vring isz isz_spec). Qed.
+
+(* ttm, one mode n, J rows after orientation: the sptensor Ynt pyttb rebuilds from the product array (returned as it is for a scipy
+   matrix when at most half full) is well-formed, has the shape with mode n replaced by J and holds the C02 value at every subscript;
+   the tensor returned for a numpy matrix is its expansion; Ynt is literally the same for every stored order *)
+Theorem C06_cont_ttm : forall (S : sparse V) n J U tr,
+  let s' := ttm_shape (sshape S) n J in
+  let Y := ttm_Ynt v0 vadd vmul isz S n J U tr in
+  wf Y /\ sshape Y = s' /\ (forall i, inb s' i = true -> den Y i = impl_ttm_sp v0 vadd vmul S n U tr i) /\
+  (kwf (cont_ttm_ndarray v0 vadd vmul isz S n J U tr) s' /\
+   forall i, inb s' i = true -> kden (cont_ttm_ndarray v0 vadd vmul isz S n J U tr) i = impl_ttm_sp v0 vadd vmul S n U tr i).
+Proof. exact (cont_ttm_correct V v0 vadd vmul isz isz_spec). Qed.
+
+Theorem C06_cont_ttm_indep : forall (S S' : sparse V) n J U tr, reord S S' ->
+  ttm_Ynt v0 vadd vmul isz S n J U tr = ttm_Ynt v0 vadd vmul isz S' n J U tr.
+Proof. exact (cont_ttm_indep V v0 v1 vadd vmul vsub vopp Vring isz). Qed.
+
+(* extract(searchsubs): one value per requested row (rows may repeat or be absent), the denoted array read at that row, the same
+   list for every stored order *)
+Theorem C06_ops_extract : forall (S S' : sparse V) q, reord S S' ->
+  impl_extract v0 S q = map (den S) q /\ length (impl_extract v0 S q) = length q /\ impl_extract v0 S q = impl_extract v0 S' q.
+Proof. exact (extract_correct V v0 isz). Qed.
 End C06K.
 
+Print Assumptions C06_ops_setitem_total.
+Print Assumptions C06_ops_region_set.
+Print Assumptions C06_same_result_def.
+Print Assumptions C06_ksame_def.
+Print Assumptions C06_cont_ttv.
+Print Assumptions C06_cont_ttv_indep.
+Print Assumptions C06_cont_collapse.
+Print Assumptions C06_cont_collapse_indep.
+Print Assumptions C06_cont_contract.
+Print Assumptions C06_cont_contract_indep.
+Print Assumptions C06_cont_ttm.
+Print Assumptions C06_cont_ttm_indep.
+Print Assumptions C06_ops_extract.
 Print Assumptions C06_ops_reshape_modes.
 Print Assumptions C06_squash.
 Print Assumptions C06_ops_squash.
@@ -308,4 +420,25 @@ Example C06_kernel_example :
     mkSp [2; 3]%nat [[1; 0]; [1; 2]]%nat [10; 27] /\
   canon 0 zisz (impl_scale_sp Z.mul zisz c6A' [1%nat] (fun j => nth (nth 0 j 0%nat) [2; 0; 3] 0)) =
     mkSp [2; 3]%nat [[1; 0]; [1; 2]]%nat [10; 27].
+Proof. repeat split; reflexivity. Qed.
+
+(* containers (wave 3b): a 2x2x3 tensor in two stored orders.  ttv in mode 2 with (1,2,3): the contributions 1*3 and -3*1 to
+   [1;0] cancel exactly and nothing is stored there (sparse container, 2 of 4); with (1,2,5) three of four positions are nonzero
+   and the container is dense; over modes 1,2 one mode is left (accumarray vector, dense); over all modes a number;
+   collapse over mode 2 is always sparse; contract(0,1) sums the diagonal entry; ttm with the 1x3 matrix; extract with a repeated
+   and an absent row *)
+Definition c6T : sparse Z := mkSp [2; 2; 3]%nat [[1; 0; 2]; [0; 1; 1]; [1; 0; 0]; [1; 1; 0]]%nat [1; -7; -3; 4].
+Definition c6T' : sparse Z := mkSp [2; 2; 3]%nat [[1; 1; 0]; [1; 0; 0]; [1; 0; 2]; [0; 1; 1]]%nat [4; -3; 1; -7].
+Example C06_cont_example :
+  cont_ttv 0 1 Z.add Z.mul zisz c6T [2%nat] [[1; 2; 3]] = KSp (mkSp [2; 2]%nat [[0; 1]; [1; 1]]%nat [-14; 4]) /\
+  cont_ttv 0 1 Z.add Z.mul zisz c6T' [2%nat] [[1; 2; 3]] = KSp (mkSp [2; 2]%nat [[0; 1]; [1; 1]]%nat [-14; 4]) /\
+  cont_ttv 0 1 Z.add Z.mul zisz c6T [2%nat] [[1; 2; 5]] = KDen (mkDense [2; 2]%nat [0; 2; -14; 4]) /\
+  cont_ttv 0 1 Z.add Z.mul zisz c6T [1%nat; 2%nat] [[1; 1]; [1; 2; 3]] = KDen (mkDense [2]%nat [-14; 4]) /\
+  cont_ttv 0 1 Z.add Z.mul zisz c6T [0%nat; 1%nat; 2%nat] [[1; 1]; [1; 1]; [1; 2; 3]] = KNum (-10) /\
+  cont_collapse 0 Z.add zisz c6T [2%nat] = KSp (mkSp [2; 2]%nat [[0; 1]; [1; 0]; [1; 1]]%nat [-7; -2; 4]) /\
+  cont_collapse 0 Z.add zisz c6T [0%nat; 2%nat] = KDen (mkDense [2]%nat [-2; -3]) /\
+  cont_contract 0 Z.add zisz c6T 0%nat 1%nat = KSp (mkSp [3]%nat [[0]]%nat [4]) /\
+  cont_contract 0 Z.add zisz c6T' 0%nat 1%nat = KSp (mkSp [3]%nat [[0]]%nat [4]) /\
+  ttm_Ynt 0 Z.add Z.mul zisz c6T 2 1 [[1; 2; 3]] false = mkSp [2; 2; 1]%nat [[0; 1; 0]; [1; 1; 0]]%nat [-14; 4] /\
+  impl_extract 0 c6T [[1; 0; 0]; [0; 0; 0]; [1; 0; 0]]%nat = [-3; 0; -3].
 Proof. repeat split; reflexivity. Qed.
